@@ -222,3 +222,140 @@ Section Exhausted.
     destruct (alloc_distribute_x_answers qs orders votes n [] _ Hp Hq Hz) as (el & ->). eexists. reflexivity.
   Qed.
 End Exhausted.
+
+(* ================================================================ the repairs change no answer the pinned code gave *)
+Lemma is_best_compat c a b x : a == b -> is_best c a x = is_best c b x.
+Proof.
+  intros E. unfold is_best. destruct (dget x c) as [s|]; [|reflexivity].
+  destruct (Qeq_bool s a) eqn:E1, (Qeq_bool s b) eqn:E2; try reflexivity.
+  - apply Qeq_bool_iff in E1. apply Qeq_bool_false in E2. exfalso. apply E2. rewrite E1. exact E.
+  - apply Qeq_bool_iff in E2. apply Qeq_bool_false in E1. exfalso. apply E1. rewrite E2. symmetry. exact E.
+Qed.
+
+Lemma best_score_start cur c m bs0 : overall_min cur = Some m -> first_score cur c = Some bs0 ->
+  best_score cur c m == best_score cur c bs0.
+Proof.
+  intros Hm Hf. destruct (overall_min_some cur m Hm) as (_ & _ & Hmin).
+  destruct (first_score_some cur c bs0 Hf) as (bw0 & Hin0 & Hs0).
+  destruct (best_score_spec c cur m) as (A1 & A2 & A3). destruct (best_score_spec c cur bs0) as (B1 & B2 & B3). cbv zeta in *.
+  apply Qle_antisym.
+  - destruct A3 as [A3|(bw & Hin & Hs)]; [|exact (B2 bw _ Hin Hs)].
+    rewrite A3. pose proof (Hmin bw0 (c, bs0) Hin0 (dget_In _ _ _ Hs0)) as H. cbn [snd] in H. lra.
+  - destruct B3 as [B3|(bw & Hin & Hs)]; [|exact (A2 bw _ Hin Hs)].
+    rewrite B3. exact (A2 bw0 bs0 Hin0 Hs0).
+Qed.
+
+Lemma fraction_out_conservative c : forall fuel cur ss cur',
+  fraction_out fuel cur c ss = inl cur' -> fraction_out_r fuel cur c ss = inl cur'.
+Proof.
+  induction fuel as [|fuel IH]; intros cur ss cur'; cbn [fraction_out fraction_out_r]; destruct (Qle_bool ss 0); try (intros H; exact H).
+  destruct (overall_min cur) as [m|] eqn:Em; [|discriminate].
+  destruct (first_score cur c) as [bs0|] eqn:Ef.
+  - pose proof (best_score_start cur c m bs0 Em Ef) as Hbs.
+    assert (Hb : forall b, is_best c (best_score cur c m) b = is_best c (best_score cur c bs0) b) by (intros b; apply is_best_compat, Hbs).
+    rewrite (filter_ext _ _ (fun bw : sballot * Q => Hb (fst bw))).
+    set (size := Qred (qsum (map snd (filter (fun bw : sballot * Q => is_best c (best_score cur c bs0) (fst bw)) cur)))).
+    destruct (Qeq_bool size 0); [intros H; exact H|].
+    destruct (Qle_bool size ss).
+    + rewrite (filter_ext (fun bw : sballot * Q => negb (is_best c (best_score cur c m) (fst bw))) (fun bw : sballot * Q => negb (is_best c (best_score cur c bs0) (fst bw))))
+        by (intros bw; rewrite Hb; reflexivity).
+      apply IH.
+    + intros [= <-]. f_equal. apply map_ext. intros bw. rewrite Hb. reflexivity.
+  - pose proof (first_score_none cur c Ef) as Hns.
+    assert (Hnil : filter (fun bw : sballot * Q => is_best c (best_score cur c m) (fst bw)) cur = []).
+    { assert (G : forall l : wprofile, (forall bw, In bw l -> dget (fst bw) c = None) ->
+                filter (fun bw : sballot * Q => is_best c (best_score cur c m) (fst bw)) l = []).
+      { induction l as [|bw l IHl]; intros Hl; [reflexivity|]. cbn [filter]. unfold is_best at 1. rewrite (Hl bw (or_introl eq_refl)).
+        apply IHl. intros bw' Hin. apply Hl. right. exact Hin. }
+      apply G, Hns. }
+    rewrite Hnil. cbn [map qsum fold_left]. change (Qeq_bool (Qred 0) 0) with true. cbn iota. intros H. exact H.
+Qed.
+
+Section Conservative.
+  Variable ra : arepairs.
+
+  Lemma fraction_out_x_conservative c fuel cur ss cur' :
+    fraction_out fuel cur c ss = inl cur' -> fraction_out_x ra fuel cur c ss = inl cur'.
+  Proof. intros H. unfold fraction_out_x. destruct (ra_exhausted ra); [apply fraction_out_conservative, H|exact H]. Qed.
+
+  Lemma subtract_votes_x_conservative cur c g mx q cur' :
+    subtract_votes cur c g mx q = inl cur' -> subtract_votes_x ra cur c g mx q = inl cur'.
+  Proof.
+    unfold subtract_votes, subtract_votes_x. destruct (fraction_out (S (length cur)) cur c q) as [mid|e] eqn:E; [|discriminate].
+    rewrite (fraction_out_x_conservative c _ _ _ _ E). intros H. exact H.
+  Qed.
+
+  Lemma elect_one_x_conservative cf cur el c r : elect_one cf cur el c = inl r -> elect_one_x ra cf cur el c = inl r.
+  Proof.
+    unfold elect_one, elect_one_x.
+    destruct (subtract_votes cur c (eget (eincr el c) c + dget_or (ac_prev cf) c 0)%Z (dget (ac_max cf) c) (ac_quota cf)) as [cur'|e] eqn:E; [|discriminate].
+    rewrite (subtract_votes_x_conservative _ _ _ _ _ _ E). intros H. exact H.
+  Qed.
+
+  Lemma elect_all_x_conservative cf tied : forall cur el r, elect_all cf tied cur el = inl r -> elect_all_x ra cf tied cur el = inl r.
+  Proof.
+    induction tied as [|c t IH]; intros cur el r; cbn [elect_all elect_all_x]; [intros H; exact H|].
+    destruct (elect_one cf cur el c) as [[cur1 el1]|e] eqn:E; [|discriminate].
+    rewrite (elect_one_x_conservative cf cur el c _ E). apply IH.
+  Qed.
+
+  Lemma alloc_step_x_conservative cands cf cur el rem : (forall e, alloc_step cf cur el rem <> AS_err e) ->
+    alloc_step_x ra cands cf cur el rem = alloc_step cf cur el rem.
+  Proof.
+    unfold alloc_step, alloc_step_x. destruct rem as [|r]; [reflexivity|]. unfold round_scores.
+    destruct (sum_scores cur) as [|p l] eqn:Es.
+    - intros H. exfalso. apply (H AE_index). reflexivity.
+    - rewrite <- Es. destruct (get_n_best Qle_bool (sum_scores cur) 1) as [|[c|t] rest].
+      + intros H. exfalso. apply (H AE_index). reflexivity.
+      + destruct (elect_one cf cur el c) as [[cur1 el1]|e] eqn:E; [|intros H; exfalso; apply (H e); reflexivity].
+        rewrite (elect_one_x_conservative cf cur el c _ E). reflexivity.
+      + destruct (Nat.leb (length t) (S r)); [|reflexivity].
+        destruct (elect_all cf (tie_iter (ac_orders cf) t) cur el) as [[cur1 el1]|e] eqn:E; [|intros H; exfalso; apply (H e); reflexivity].
+        rewrite (elect_all_x_conservative cf _ cur el _ E). reflexivity.
+  Qed.
+
+  Lemma alloc_loop_x_conservative cands cf : forall fuel cur el rem e,
+    alloc_loop fuel cf cur el rem = inl e -> alloc_loop_x ra cands fuel cf cur el rem = inl e.
+  Proof.
+    induction fuel as [|f IH]; intros cur el rem e; cbn [alloc_loop alloc_loop_x]; [discriminate|].
+    destruct (alloc_step cf cur el rem) as [cur' el' rem'|e'|e'] eqn:E; [| |discriminate];
+      (rewrite (alloc_step_x_conservative cands cf cur el rem) by (intros e0; rewrite E; discriminate)); rewrite E; [apply IH|intros H; exact H].
+  Qed.
+
+  (* whatever the pinned distributor answered, the repaired one answers; so does the selector (listing a tie once per seat) *)
+  Theorem alloc_distribute_x_conservative qs orders votes n prev mx e :
+    alloc_distribute qs orders votes n prev mx = inl e -> alloc_distribute_x ra qs orders votes n prev mx = inl e.
+  Proof.
+    unfold alloc_distribute, alloc_distribute_x. destruct (quota_divides_by_seats qs && Nat.eqb n 0); [discriminate|].
+    apply alloc_loop_x_conservative.
+  Qed.
+End Conservative.
+
+(* ================================================================ a round of the repaired loop without a tie *)
+Theorem alloc_round_x ra cands cf cur el rem c rest : ra_exhausted ra = true -> NoDup cands ->
+  wpos cur -> 0 < ac_quota cf -> (0 < rem)%nat ->
+  get_n_best Qle_bool (round_scores ra cands cf cur el) 1 = Cand c :: rest ->
+  ((sum_scores cur <> [] -> scored c cur /\ forall d, scored d cur -> d <> c -> wscore cur d < wscore cur c) /\
+   (sum_scores cur = [] -> In c cands /\ may_gain cf el c = true /\ forall d, In d cands -> may_gain cf el d = true -> d = c)) /\
+  exists cur', alloc_step_x ra cands cf cur el rem = AS_next cur' (eincr el c) (rem - 1) /\
+    exists mid, removal_spec c (ac_quota cf) cur mid /\
+                cur' = (if eliminated (gained_of cf el c) (dget (ac_max cf) c) then subset_out c mid else mid) /\
+                wtotal cur' == wtotal cur - Qmin (ac_quota cf) (asupport c cur) /\ wpos cur'.
+Proof.
+  intros Hra Hnd Hp Hq Hrem Hbest. split.
+  - unfold round_scores in Hbest. destruct (sum_scores cur) as [|p l] eqn:Es.
+    + split; [congruence|]. intros _. rewrite Hra in Hbest.
+      set (z := map (fun c0 : C => (c0, 0)) (filter (may_gain cf el) cands)) in *.
+      assert (Hkz : map fst z = filter (may_gain cf el) cands) by (unfold z; rewrite map_map; cbn [fst]; apply map_id).
+      assert (Hndz : NoDup (map fst z)) by (rewrite Hkz; apply NoDup_filter, Hnd).
+      destruct (get_n_best_1_cand Qle_bool Qle_bool_total Qle_bool_trans z c rest Hndz Hbest) as (_ & v & Hin & Hmax).
+      assert (Hc : In c (filter (may_gain cf el) cands)) by (rewrite <- Hkz; apply in_map_iff; exists (c, v); auto).
+      apply filter_In in Hc. split; [apply Hc|]. split; [apply Hc|]. intros d Hd Hg.
+      destruct (Pos.eq_dec d c) as [E|E]; [exact E|exfalso].
+      assert (Hdz : In (d, 0) z) by (unfold z; apply in_map_iff; exists d; split; [reflexivity|apply filter_In; auto]).
+      assert (Hv : v = 0) by (unfold z in Hin; apply in_map_iff in Hin; destruct Hin as (x & Hx & _); congruence).
+      specialize (Hmax d 0 Hdz E). rewrite Hv in Hmax. discriminate.
+    + split; [|discriminate]. intros _. rewrite <- Es in Hbest. exact (alloc_winner_greatest cur c rest Hbest).
+  - unfold alloc_step_x. destruct rem as [|r]; [lia|]. rewrite Hbest.
+    destruct (elect_one_x_spec ra Hra cf cur el c Hp Hq) as (cur' & E & H). rewrite E. exists cur'. split; [reflexivity|exact H].
+Qed.
